@@ -222,3 +222,8 @@ def _positive_control(repo: Repo, rep: Report) -> None:
     else:
         rep.ok("R16.control", "synthetic generator with one unescaped alias hole is flagged, its repr twin is not",
                {"flagged": flagged, "clean": clean})
+
+
+_ADDENDUM = ' Borrowed: R01.5 (the specialisation key that names compiled methods is an injective digest of the type names, Literal strings included).'
+EXPLANATION += _ADDENDUM
+LEVEL_TEXT += _ADDENDUM
